@@ -12,6 +12,7 @@ import Desverif.Proofs.NdlRoundtrip
 import Desverif.Proofs.NdlInst
 import Desverif.Proofs.NdlWire
 import Desverif.Proofs.NdlDenote
+import Desverif.Proofs.NdlErrors
 namespace C18
 open Ndl
 
@@ -96,53 +97,57 @@ theorem instantiate_modules_gates_exact (reg : Str → Bool) (n : Node) (w : Wor
 theorem instantiate_connections_exact (reg : Str → Bool) (n : Node) (w : World)
     (h : instantiate reg n = .ok w) : Spec.worldOf reg n = .ok w := instantiate_worldOf reg n w h
 
-/-- **Elaboration = denotation (partial: no type arguments).**  For every description with pairwise
-    distinct module identifiers in which no submodule type carries type arguments (generic modules may
-    be declared and their parameters used as placeholders, but `G(C)` does not occur), in every
-    hash-map iteration order: if the memoised bottom-up `transform` (dependency-ordered work list, table
-    of finished archetypes; inheritance, cluster expansion, cluster-to-cluster connections, links)
-    succeeds with tree `n`, then the top-down denotation `Spec.denoteTree` — no work list, no table,
-    endpoint expansion as a list comprehension — is exactly `n`.
-    MISSING for the full `transform_eq_denotation`: the `G(C, …)` branch (`substArgs` by symbol name
-    vs. the positional replacement of the denotation), and the converse/error direction. -/
-theorem transform_eq_denotation_partial (d : Def)
-    (hu : Spec.allDistinct (d.modules.map (·.1.ident)) = true) (hna : Spec.noTypeArgs d = true)
+/-- **Elaboration = denotation.**  For every description of the supported fragment
+    (`Spec.unsupported d = false`: pairwise distinct module identifiers, no type parameter named like
+    a module, no inheriting from a generic module — outside it the code's answer depends on hash-map
+    order or captures symbols), in every hash-map iteration order: if the memoised bottom-up
+    `transform` (dependency-ordered work list, table of finished archetypes; inheritance, generic
+    modules, type arguments `G(C, D)` with conformance, placeholders, cluster expansion, indexed /
+    whole-cluster / cluster-to-cluster connections, links) succeeds with tree `n`, then the top-down
+    denotation `Spec.denoteTree` — no work list, no table, endpoint expansion as a list comprehension,
+    type arguments substituted positionally by the generic module's own declarations — is exactly `n`.
+    (The converse, "denotation defined ⇒ transform succeeds", is not proved; see the report.) -/
+theorem transform_eq_denotation (d : Def) (hs : Spec.unsupported d = false)
     (n : Node) (h : transform d = .ok n) : Spec.denoteTree d = .ok n :=
-  transform_denoteTree d hu hna n h
+  transform_denoteTree d hs n h
 
-/-- **transform_sound_complete (partial: no type arguments).**  Under the hypotheses of
-    `transform_eq_denotation_partial`: if `transform` succeeds and building the simulation succeeds,
-    the simulation is exactly ⟦d⟧ — modules, symbols, gate clusters, connections, link parameters. -/
-theorem transform_sound_complete_partial (reg : Str → Bool) (d : Def)
-    (hu : Spec.allDistinct (d.modules.map (·.1.ident)) = true) (hna : Spec.noTypeArgs d = true)
+/-- **transform_sound_complete.**  For every supported description: if `transform` succeeds and
+    building the simulation succeeds, the simulation is exactly ⟦d⟧ — the module paths with their
+    software symbols, the gate clusters, and per gate the connection slots with peer gates and channel
+    metrics (bitrate, latency, jitter, queue) — no more and no fewer. -/
+theorem transform_sound_complete (reg : Str → Bool) (d : Def) (hs : Spec.unsupported d = false)
     (n : Node) (w : World) (ht : transform d = .ok n) (hi : instantiate reg n = .ok w) :
     Spec.denote reg d = .ok w := by
   unfold Spec.denote
-  rw [transform_denoteTree d hu hna n ht]
+  rw [transform_denoteTree d hs n ht]
   exact instantiate_worldOf reg n w hi
 
-/-- **Why the model rejects (partial `error_kinds_descriptive`: three kinds, at their origin).**
-    (1) the ordering loop fails only with `UnresolvableDependency(stuck)` where `stuck` is a non-empty
-    list of given modules each of which requires a symbol no ordered module provides (unknown name or
-    cycle); (2) `iter_for_kardinality_access` fails only with `ConnectionIndexOutOfBounds(access)`, and
-    only for an index into an atom or an index `≥` the declared size; (3) `transform_gates` fails only
-    with `InvalidGate(module, gate)` for a declared gate cluster of size 0. -/
-theorem error_kinds_descriptive_partial :
-    (∀ (d : Def) (f : Fail), orderLoop (entries d).length [] (entries d) [] = .error f →
-      ∃ (stuck : List Entry) (p' : List Str),
-        f = .err .unresolvableDependency (stuck.map (·.ident.ident)) {} ∧ stuck ≠ [] ∧
-        (∀ e ∈ stuck, e ∈ entries d) ∧ ∀ e ∈ stuck, ∃ s ∈ e.deps, s ∉ p') ∧
-    (∀ (dcl a : FieldDef) (f : Fail), kardAccess dcl a = .error f →
-      f = .err .connectionIndexOutOfBounds [a.display] {} ∧
-      ((dcl.kard = .atom ∧ ∃ i, a.kard = .cluster i) ∨
-        ∃ n i, dcl.kard = .cluster n ∧ a.kard = .cluster i ∧ n ≤ i)) ∧
-    (∀ (ident : Str) (defs : List GateDef) (f : Fail), transformGates ident defs = .error f →
-      ∃ g ∈ defs, g.kard = .cluster 0 ∧
-        f = .err .invalidGate [ident, g.ident] { gate := some g.display }) := by
-  refine ⟨?_, kardAccess_error, transformGates_error⟩
-  intro d f h
-  obtain ⟨stuck, p', e1, e2, e3, _, e5⟩ := orderLoop_error _ [] (entries d) [] f (Nat.le_refl _) h
-  exact ⟨stuck, p', e1, e2, e3, e5⟩
+/-- **The error taxonomy is total and descriptive.**  Every rejection of `transform` (for every
+    description whose endpoints are non-empty, i.e. every deserialised one, and every hash-map order)
+    is a descriptive `Err` — never a panic, never a bare parse error — whose kind, payload and span name
+    a module / clause / symbol *of the input* that really has the announced defect (`Ndl.Cause`):
+    * `UnresolvableDependency(stuck)`: a non-empty list of modules of the description each of which
+      requires a symbol that is no module of the description (undefined) or is itself stuck (cycle);
+    * `UnknownModule(entry)`: the entry symbol is no module identifier;
+    * `SymbolAlreadyDefined`: two type parameters of the named module with one binding;
+    * `InvalidGate` / `InvalidSubmodule`: a declared gate / submodule cluster of size 0;
+    * `InvalidTypStatement`: a generic module (or a parameter bounded by one) used without arguments,
+      a wrong number of arguments, or an argument that is itself generic — with the offending module
+      of the description and its parameters as payload;
+    * `UnknownModule(binding)`: a type parameter used with arguments or passed on as an argument;
+    * `AssignedTypDoesNotConformToInterface`: located at the submodule clause with type arguments;
+    * connection errors (`UnknownGate/SubmoduleInConnection`, `ConnectionIndexOutOfBounds`,
+      `UnequalPeers(l, r)` with `l ≠ r`, `UnknownLink(name)` with `name` absent from `links`): located at
+      the connection clause by index, the payload an accessor written in that clause. -/
+theorem error_kinds_descriptive (d : Def) (hd : d.endpointsNonempty) (f : Fail)
+    (h : transform d = .error f) : Cause d f := transform_error_cause d hd f h
+
+/-- local strengthening for index errors: `ConnectionIndexOutOfBounds(access)` is raised only for an
+    index into an atom or an index `≥` the declared cluster size -/
+theorem index_error_cause (dcl a : FieldDef) (f : Fail) (h : kardAccess dcl a = .error f) :
+    f = .err .connectionIndexOutOfBounds [a.display] {} ∧
+    ((dcl.kard = .atom ∧ ∃ i, a.kard = .cluster i) ∨
+      ∃ n i, dcl.kard = .cluster n ∧ a.kard = .cluster i ∧ n ≤ i) := kardAccess_error dcl a f h
 
 /-! ### non-vacuity -/
 
@@ -200,20 +205,48 @@ def tiny : Node :=
 example : ((instantiate (fun _ => true) tiny).toOption.map fun w =>
     (w.length, (w.map fun m => m.gates.length).sum)) = some (3, 4) := by decide
 
-/-- a description inside the fragment of `transform_eq_denotation_partial` with inheritance, a generic
-    declaration, clusters and a cluster-to-cluster connection -/
-def plainSample : RawDef :=
+/-- `transform_eq_denotation` is not vacuous: `sample` (generic module with a conforming type argument,
+    inheritance, clusters, a cluster-to-cluster connection through the substituted submodules, a link)
+    is in the supported fragment and elaborates -/
+example : ((parseDef sample).toOption.map fun d => (Spec.unsupported d, summary (transform d))) =
+    some (false, ("ok", 2, 2)) := by decide
+
+/-- a small description with a type argument … -/
+def genDef : Def :=
   { entry := "A".toList
     modules :=
-      [ ⟨"A".toList, some "C".toList, ["o[2]".toList], [("h[2]".toList, "C".toList)],
-          [⟨"h/port".toList, "o".toList, some "fast".toList⟩]⟩,
-        ⟨"G(T <- C)".toList, none, [], [("t".toList, "T".toList)], []⟩,
-        ⟨"C".toList, none, ["port".toList], [], []⟩ ]
-    links := [("fast".toList, ⟨5, 0, 1000, none⟩)] }
+      [ (⟨"A".toList, []⟩, ⟨none, [⟨"o".toList, .atom⟩], [(⟨"g".toList, .atom⟩, ⟨"G".toList, ["C".toList]⟩)],
+          [⟨⟨[⟨"g".toList, .atom⟩, ⟨"t".toList, .atom⟩, ⟨"port".toList, .atom⟩]⟩, ⟨[⟨"o".toList, .atom⟩]⟩, none⟩]⟩),
+        (⟨"G".toList, [⟨"T".toList, "C".toList⟩]⟩, ⟨none, [], [(⟨"t".toList, .atom⟩, ⟨"T".toList, []⟩)], []⟩),
+        (⟨"C".toList, []⟩, ⟨none, [⟨"port".toList, .atom⟩], [], []⟩) ]
+    links := [] }
 
-example : ((parseDef plainSample).toOption.map fun d =>
-    (Spec.allDistinct (d.modules.map (·.1.ident)), Spec.noTypeArgs d, summary (transform d))) =
-    some (true, true, ("ok", 1, 2)) := by decide
+/-- … and the tree it elaborates to -/
+def genNode : Node :=
+  .mk "A".toList
+    [(⟨"g".toList, .atom⟩, .mk "G".toList [(⟨"t".toList, .atom⟩, .mk "C".toList [] [⟨"port".toList, .atom⟩] [])] [] [])]
+    [⟨"o".toList, .atom⟩]
+    [⟨[⟨"g".toList, none⟩, ⟨"t".toList, none⟩, ⟨"port".toList, none⟩], [⟨"o".toList, none⟩], none⟩]
+
+/-- the hypotheses of `transform_sound_complete` are jointly satisfiable (supported description with a
+    type argument; `transform` and the build succeed: 3 modules) -/
+example : Spec.unsupported genDef = false ∧ transform genDef = .ok genNode ∧
+    ((instantiate (fun _ => true) genNode).toOption.map (·.length)) = some 3 :=
+  ⟨by decide, by rfl, by decide⟩
+
+/-- a cyclic description: `error_kinds_descriptive` applies and yields the `unresolvable` cause -/
+def cycDef : Def :=
+  { entry := "A".toList
+    modules :=
+      [ (⟨"A".toList, []⟩, ⟨none, [], [(⟨"b".toList, .atom⟩, ⟨"B".toList, []⟩)], []⟩),
+        (⟨"B".toList, []⟩, ⟨none, [], [(⟨"a".toList, .atom⟩, ⟨"A".toList, []⟩)], []⟩) ]
+    links := [] }
+
+example : cycDef.endpointsNonempty ∧
+    transform cycDef = .error (.err .unresolvableDependency ["A".toList, "B".toList] {}) := by
+  refine ⟨?_, by rfl⟩
+  unfold Def.endpointsNonempty
+  decide
 
 /-- the hypotheses of the round-trip theorems are met by ordinary clauses -/
 example : FieldOk ⟨"host".toList, .cluster 12⟩ := ⟨by decide, by decide⟩
